@@ -173,6 +173,12 @@ func (w *worker) handshakeAttempt(p Point, sk string, reject bool, attempt int) 
 		return
 	}
 	e := expect(p)
+	if e.idErr || e.rootsErr {
+		// a config was returned although an error was owed: that is the inspection's finding; the
+		// table defines no handshake outcome for such a point
+		m.Class("hs:config-despite-owed-error")
+		return
+	}
 	roots := expectedPool(p, w.mat)
 	name := p.ServerName
 	if name == "" {
@@ -230,9 +236,6 @@ func (w *worker) handshakeAttempt(p Point, sk string, reject bool, attempt int) 
 			sk, cerr, e.rootsClass, name, rec.err), c)
 	case !ok:
 		m.Class("hs:" + sk + ":refused:" + why)
-		if why == "callback-rejects" && cbCalled == 0 {
-			m.Violate("hs-callback-not-invoked", fmt.Sprintf("the rejecting callback was never consulted; handshake failed with %q", cerr), c)
-		}
 	default:
 		m.Class("hs:" + sk + ":ok:" + mode)
 		if st.Version < tls.VersionTLS12 {
